@@ -464,6 +464,40 @@ func (s *Spec) Field() zapcore.Field {
 			out[i] = e.build()
 		}
 		guardInput("zap.Stringers", func() string { return fmt.Sprintf("%d %#v", len(out), out) })
+		// the generic constructor is instantiated for the element type: when every element has the same concrete
+		// type, sometimes use a slice of THAT type (value types cannot be nil - their String methods can still panic)
+		if len(ss) > 0 && len(s.Key)%2 == 0 {
+			same := true
+			for _, e := range ss {
+				if e.Kind != ss[0].Kind {
+					same = false
+				}
+			}
+			if same {
+				switch ss[0].Kind {
+				case "ok":
+					ts := make([]okStringer, len(ss))
+					for i, e := range ss {
+						ts[i] = okStringer{e.S}
+					}
+					return zap.Stringers(k, ts)
+				case "panic":
+					ts := make([]panicStringer, len(ss))
+					for i, e := range ss {
+						ts[i] = panicStringer{e.S}
+					}
+					return zap.Stringers(k, ts)
+				case "ptr":
+					ts := make([]*ptrStringer, len(ss))
+					for i, e := range ss {
+						ts[i] = &ptrStringer{e.S}
+					}
+					return zap.Stringers(k, ts)
+				case "nilptr":
+					return zap.Stringers(k, make([]*ptrStringer, len(ss)))
+				}
+			}
+		}
 		return zap.Stringers(k, out)
 	case "reflect":
 		return zap.Reflect(k, s.V)
